@@ -380,6 +380,15 @@ def judge_c18(case, res):
     rc = res["rc"]
     feats.append("%s|%s|%s|%s|%s|%d" % (case["tool"], mode, case.get("stdout"), "ok" if lib_ok else "err%d" % ref["status"], f["class"], min(len(fired), 3)))
     if mode == "dc":
+        if res["stdout"] != expect_out and not lib_ok:
+            # On input the library rejects, how many bytes liblzma hands out before the error depends on
+            # the buffer sizes it is called with (known finding KF-C06-2 of C06 - a property of liblzma, not of
+            # the tools). The tools call it with 8 KiB buffers; a direct library decode done that way is the
+            # other admissible reference. Status and everything else stay strict.
+            ref2 = xzsim.lib_decode(data, "auto" if case["tool"] != "lzmadec" else "lzma", single=case.get("_single", False), chunk=8192)
+            if ref2["status"] == ref["status"] and res["stdout"] == ref2["out"]:
+                counters["reach.rejected_input_output_depends_on_buffer_size"] = 1
+                expect_out = ref2["out"]
         if res["stdout"] != expect_out:
             i = 0
             a, b = res["stdout"], expect_out
